@@ -304,17 +304,20 @@ def x_optpart(p):
 
     rt = robotools()
 
+    rows, cols = p.get("rows", 4), p.get("cols", 2)
+
     def mk(trough, name):
+        # a trough is a trough whatever its number of virtual rows (also one); a plate is a plate also with a single row
         if trough:
-            return rt.Trough(name, 4, 2, min_volume=0, max_volume=10)
-        return rt.Labware(name, 4, 2, min_volume=0, max_volume=10)
+            return rt.Trough(name, rows, cols, min_volume=0, max_volume=10)
+        return rt.Labware(name, rows, cols, min_volume=0, max_volume=10)
 
     exc, res = None, ""
     try:
         res = optimize_partition_by(mk(p["st"], "s"), mk(p["dt"], "d"), p["mode"], p.get("label"))
     except Exception as e:  # noqa
         exc = e
-    return {"fn": "optpart", "id": f"{p['st']}/{p['dt']}/{p['mode']}", "st": bool(p["st"]), "dt": bool(p["dt"]), "mode": p["mode"],
+    return {"fn": "optpart", "id": f"{p['st']}/{p['dt']}/{p['mode']} {rows}x{cols}", "st": bool(p["st"]), "dt": bool(p["dt"]), "mode": p["mode"],
             "out": outcome_class(exc), "res": res if isinstance(res, str) else "?"}
 
 
